@@ -42,7 +42,7 @@ Lemma factors_at_plane vp x y at_ :
 Proof.
   intros H. unfold factors_at, factors_plane.
   destruct (at_mask at_) as [mk|]; [|destruct vp as [[[? ?] ?] ?]; reflexivity].
-  pose proof (paste_is_abs_at vp (mk_rect mk) (@plane_at ROps (mk_data mk) (rwidth (mk_rect mk)))
+  pose proof (paste_is_abs_at vp (mk_rect mk) (@plane_at ROps (at_den at_) (mk_data mk) (rwidth (mk_rect mk)))
                 (@byte ROps (mk_bg mk)) x y H) as P.
   destruct vp as [[[vl vt] vr] vb].
   destruct (mk_disabled mk); [reflexivity|].
@@ -116,8 +116,8 @@ Proof.
   induction L as [rc chans alpha at_ | pass ch at_ IH] using layer_ind'; intros vp clips' clips Hin Hcl.
   - cbn [sample_layer plane_layer attrs_of bbox_of].
     destruct (negb (at_vis at_)); [apply sim_nil|].
-    pose proof (paste_is_abs_at vp rc (@plane_at ROps alpha (rwidth rc)) (@f0 ROps) x y Hin) as P1.
-    pose proof (paste_is_abs_at vp rc (@plane_at ROps (nth k chans []) (rwidth rc)) (@f1 ROps) x y Hin) as P2.
+    pose proof (paste_is_abs_at vp rc (@plane_at ROps (at_den at_) alpha (rwidth rc)) (@f0 ROps) x y Hin) as P1.
+    pose proof (paste_is_abs_at vp rc (@plane_at ROps (at_den at_) (nth k chans []) (rwidth rc)) (@f1 ROps) x y Hin) as P2.
     pose proof (factors_at_plane vp x y at_ Hin) as Fc.
     destruct (is_zero_rect (intersect vp rc)) eqn:Z.
     + (* dropped by the viewport test: the pixel is outside the layer's box *)
@@ -170,13 +170,13 @@ Proof.
   assert (Hmd : unit (fst (match at_mask at_ with
       | Some mk => if mk_disabled mk then (@f1 ROps, @f1 ROps) else
           (match mk_data mk with [] => @f1 ROps | _ :: _ =>
-             abs_at (mk_rect mk) (@plane_at ROps (mk_data mk) (rwidth (mk_rect mk))) (@byte ROps (mk_bg mk)) x y end,
+             abs_at (mk_rect mk) (@plane_at ROps (at_den at_) (mk_data mk) (rwidth (mk_rect mk))) (@byte ROps (mk_bg mk)) x y end,
            match mk_density mk with None => @f1 ROps | Some d => @byte ROps d end)
       | None => (@f1 ROps, @f1 ROps) end)) /\
      unit (snd (match at_mask at_ with
       | Some mk => if mk_disabled mk then (@f1 ROps, @f1 ROps) else
           (match mk_data mk with [] => @f1 ROps | _ :: _ =>
-             abs_at (mk_rect mk) (@plane_at ROps (mk_data mk) (rwidth (mk_rect mk))) (@byte ROps (mk_bg mk)) x y end,
+             abs_at (mk_rect mk) (@plane_at ROps (at_den at_) (mk_data mk) (rwidth (mk_rect mk))) (@byte ROps (mk_bg mk)) x y end,
            match mk_density mk with None => @f1 ROps | Some d => @byte ROps d end)
       | None => (@f1 ROps, @f1 ROps) end))).
   { destruct (at_mask at_) as [mk|]; [|split; apply unit_1].
@@ -209,7 +209,7 @@ Proof.
     constructor; try assumption.
     + apply abs_at_unit; [|apply unit_1]. intros. apply plane_at_unit.
       destruct (Nat.lt_ge_cases k (length chans)) as [Hk|Hk].
-      * match goal with H : Forall bytes_ok chans |- _ => rewrite Forall_forall in H; apply H end. apply nth_In. exact Hk.
+      * match goal with H : Forall (vals_ok (at_den at_)) chans |- _ => rewrite Forall_forall in H; apply H end. apply nth_In. exact Hk.
       * rewrite nth_overflow by exact Hk. constructor.
     + apply abs_at_unit; [|apply unit_0]. intros. apply plane_at_unit. assumption.
     + apply factors_plane_ok. assumption.
